@@ -15,7 +15,7 @@ RULE = ('triples (u,v,w) of linear units of one dimension (every table symbol wi
         'non-trivial = u and v differ in text and factor, or the conversion must be refused; distinct by (u,v,w,class of x)')
 SHARDS = {'quick': 16, 'thorough': 16}
 MIN_NONTRIVIAL = {'quick': 6000, 'thorough': 150000}
-REQUIRED_CLASSES = ['atom-pair', 'compound-pair', 'named-vs-expansion', 'system-symbol', 'array', 'scalar', 'zero', 'negative',
+REQUIRED_CLASSES = ['magnitude-with-uncertainty', 'atom-pair', 'compound-pair', 'named-vs-expansion', 'system-symbol', 'array', 'scalar', 'zero', 'negative',
                     'extreme', 'reciprocal', 'bare-number-to-rad', 'merged-fractional-exponents', 'square-of-half-integer-dimension-unit', 'refusal', 'refusal-dimensionless-unit-to-angle', 'refusal-with-quantity-target', 'target-quantity', 'roundtrip', 'via-intermediate', 'same-object-history']
 REQUIRED_MONITORS = ['value_compares', 'roundtrip_compares', 'path_compares', 'refusal_fingerprint_compares', 'history_step_compares']
 ASSUMPTIONS = ['units_ref factors come from the published tables', 'rtol 1e-9',
@@ -112,6 +112,15 @@ def expansion(rng, ctx, dims):
 
 
 def cases(rng, tier, shard, nshards, ctx):
+    import random
+    r2 = random.Random(rng.random())
+    for c in _cases(rng, tier, shard, nshards, ctx):
+        if c.get('t') in ('conv', 'recip', 'hist', 'toq') and c.get('xc') != 'extreme' and r2.random() < 0.2:
+            c['unc'] = True
+        yield c
+
+
+def _cases(rng, tier, shard, nshards, ctx):
     n = 14000 if tier == 'quick' else 420000
     if tier == 'thorough':
         i = 0
@@ -249,7 +258,13 @@ def _run(case, ctx):
         classes.append('extreme')
     mon, devs = {}, []
     xs = vals(x, arr, np)
-    mk = (lambda: Q(list(xs), ut)) if arr else (lambda: Q(xs[0], ut))
+    if case.get('unc') and case.get('t') != 'refuse':
+        # a measured value: the number converts by the same factor whatever uncertainty rides along
+        classes.append('magnitude-with-uncertainty')
+        e_ = 0.01 * abs(xs[0]) + 1e-3
+        mk = (lambda: Q(list(xs), ut, abse=e_)) if arr else (lambda: Q(xs[0], ut, abse=e_))
+    else:
+        mk = (lambda: Q(list(xs), ut)) if arr else (lambda: Q(xs[0], ut))
 
     def getv(q):
         v = q if not hasattr(q, 'magnitude') else q.magnitude.value
